@@ -243,6 +243,17 @@ pub fn expr(e: &Expr, ind: usize) -> String {
         Expr::Try(x) => format!(".try_ {}", arg(x, ind)),
         Expr::Closure(ps, b) => format!(".closure {} {}", pat_list(ps), arg(b, ind)),
         Expr::Macro(n, t) => format!(".macro {} {}", lean_str(n), lean_str(t)),
+        Expr::MacroArgs(n, t, a) => format!(".macroArgs {} {} {}", lean_str(n), lean_str(t), expr_list(a, ind)),
+        Expr::While(c, b) => format!(".whileE {} {}", arg(c, ind), stmts(b, ind)),
+        Expr::Loop(b) => format!(".loopE {}", stmts(b, ind)),
+        Expr::For(p, it, b) => format!(".forE ({}) {} {}", pat(p), arg(it, ind), stmts(b, ind)),
+        Expr::Range(lo, hi, inc) => format!(".range {} {} {}", opt_expr(lo, ind), opt_expr(hi, ind), inc),
+        Expr::Break(x) => format!(".breakE {}", opt_expr(x, ind)),
+        Expr::Continue => ".continueE".to_string(),
+        Expr::LetCond(p, x) => format!(".letCond ({}) {}", pat(p), arg(x, ind)),
+        Expr::Index(x, i) => format!(".index {} {}", arg(x, ind), arg(i, ind)),
+        Expr::Array(es) => format!(".array {}", expr_list(es, ind)),
+        Expr::Repeat(x, n) => format!(".repeatE {} {}", arg(x, ind), arg(n, ind)),
         Expr::Other(t) => format!(".other {}", lean_str(t)),
     }
 }
@@ -401,8 +412,67 @@ pub fn emit_all(out: &Output) -> String {
         text.push('\n');
     }
     text.push_str("]\n\n");
-    text.push_str("/-- the tables as the interpreter's context; `nowNs` is the environment input -/\n");
-    text.push_str("def ctx (nowNs : Int) : Ctx := ⟨fns, consts, constTypes, structs, enums, nowNs⟩\n");
+    // ---- discriminants, statics, type aliases ----
+    text.push_str("/-- field-less enum ↦ discriminants of its variants (explicit where written, else previous + 1 from 0) -/\n");
+    text.push_str("@[rs_code] def enumDiscr : List (String × List (String × Int)) := [\n");
+    let with_discr: Vec<&EnumDecl> = out.enums.iter().filter(|d| d.discr.is_some()).collect();
+    for (i, d) in with_discr.iter().enumerate() {
+        let vs: Vec<String> = d
+            .discr
+            .as_ref()
+            .unwrap()
+            .iter()
+            .map(|(n, k)| {
+                if k.starts_with('-') {
+                    format!("({}, ({}))", lean_str(n), k)
+                } else {
+                    format!("({}, {})", lean_str(n), k)
+                }
+            })
+            .collect();
+        let _ = write!(text, "  ({}, [{}])", lean_str(&d.name), vs.join(", "));
+        if i + 1 < with_discr.len() {
+            text.push(',');
+        }
+        let _ = writeln!(text, "  -- {}", d.source);
+    }
+    text.push_str("]\n\n");
+    let mut static_idents = Vec::new();
+    for c in &out.statics {
+        let id = ident_of("static_", &c.name, &mut used);
+        let _ = writeln!(
+            text,
+            "/-- `static {}{}` : `{}` ({}) -/",
+            if c.mutable { "mut " } else { "" },
+            c.name,
+            c.ty.replace('`', "'"),
+            c.source
+        );
+        let _ = writeln!(text, "@[simp, rs_code] def {} : Expr :=\n  {}", id, expr(&c.init, 2));
+        static_idents.push(id);
+    }
+    text.push_str("/-- `static` items: name ↦ (declared type, mutable, initializer). Not read by the interpreter core. -/\n");
+    text.push_str("@[rs_code] def statics : List (String × String × Bool × Expr) := [\n");
+    for (i, (c, id)) in out.statics.iter().zip(static_idents.iter()).enumerate() {
+        let _ = write!(text, "  ({}, {}, {}, {})", lean_str(&c.name), lean_str(&c.ty), c.mutable, id);
+        if i + 1 < out.statics.len() {
+            text.push(',');
+        }
+        text.push('\n');
+    }
+    text.push_str("]\n\n");
+    text.push_str("/-- `type` aliases: name ↦ aliased type -/\n");
+    text.push_str("@[rs_code] def aliases : List (String × String) := [\n");
+    for (i, a) in out.aliases.iter().enumerate() {
+        let _ = write!(text, "  ({}, {})", lean_str(&a.name), lean_str(&a.ty));
+        if i + 1 < out.aliases.len() {
+            text.push(',');
+        }
+        let _ = writeln!(text, "  -- {}", a.source);
+    }
+    text.push_str("]\n\n");
+    text.push_str("/-- the tables as the interpreter's context, with an extension dictionary `ext`, the sizes of the\n    `#[repr(C)]` structs (`size_of::<T>()`) and the input stream `inp`; `nowNs` is CLOCK_REALTIME -/\n");
+    text.push_str("def ctxWith (nowNs : Int) (ext : Ext) (sizes : List (String × Nat)) (inp : Nat → Value) : Ctx :=\n  { fns := fns, consts := consts, constTypes := constTypes, structs := structs, enums := enums, nowNs := nowNs,\n    enumDiscr := enumDiscr, sizes := sizes, inp := inp, ext := ext }\n");
     for (proj, val) in [
         ("fns", "fns"),
         ("consts", "consts"),
@@ -410,6 +480,31 @@ pub fn emit_all(out: &Output) -> String {
         ("structs", "structs"),
         ("enums", "enums"),
         ("nowNs", "nowNs"),
+        ("enumDiscr", "enumDiscr"),
+        ("sizes", "sizes"),
+        ("inp", "inp"),
+        ("ext", "ext"),
+    ] {
+        let _ = writeln!(
+            text,
+            "@[simp, rs_code] theorem ctxWith_{p} (nowNs : Int) (ext : Ext) (sizes : List (String × Nat)) (inp : Nat → Value) : (ctxWith nowNs ext sizes inp).{p} = {v} := rfl",
+            p = proj,
+            v = val
+        );
+    }
+    text.push_str("/-- the context without extension dictionary and without inputs (the loop-free, effect-free groups) -/\n");
+    text.push_str("def ctx (nowNs : Int) : Ctx := ctxWith nowNs Ext.none [] (fun _ => Value.unit)\n");
+    for (proj, val) in [
+        ("fns", "fns"),
+        ("consts", "consts"),
+        ("constTypes", "constTypes"),
+        ("structs", "structs"),
+        ("enums", "enums"),
+        ("nowNs", "nowNs"),
+        ("enumDiscr", "enumDiscr"),
+        ("sizes", "[]"),
+        ("inp", "(fun _ => Value.unit)"),
+        ("ext", "Ext.none"),
     ] {
         let _ = writeln!(
             text,
